@@ -19,3 +19,13 @@ def run(ctx):
     from rules import symprint
     symprint.L2_guards(ctx, "C07.L2", core, G, scope_fns=("ast_to_source", "formatter"))
     symprint.shape_rules(ctx, "C07.R7", core, G, scope_fns=("ast_to_source", "formatter"))
+    # literal numbers are re-emitted exactly (shared with C16.R1 / C05.L10)
+    from rules import c16
+    ctx.rule("C07.L10", "numbers in formatted source are printed exactly: f64 Display without precision, or precision 0 dominated by fract() == 0", floor=3)
+    pf = P.printer_fns(core)
+    for pn in sorted(pf):
+        for arm, var, vnames, vs in c16.number_arms(core, pn, pf[pn]):
+            if not any(v.endswith("ast::Expr::Number") for v in vs):
+                continue  # captured values (SerializableValue) only occur in function output, not in formatted programs
+            key = "%s[Expr::Number]" % pn.replace("blots_core::", "")
+            c16.classify_number_to_text(core, arm["body"], var, lambda k, ok, d, loc: ctx.inst("C07.L10", k, ok, d, loc), key, None)
